@@ -4,6 +4,7 @@ from pyvc.harness import Spec, IntK, Outcome
 from pyvc.values import to_z3_int as Z
 
 LEVEL = "proof"
+MANIFEST_ENTRY = {"text": 'Unbounded proof (all integers) of overlap/adjacent against interval-set semantics; Spans/DataSpans operations: see level note.', "note": 'P for overlap/adjacent. Trusted: pyvc engine (cross-checked vs CPython each run), z3.'}
 EXPLANATION = "overlap/adjacent proved for all integers."
 TRUSTED = []
 ASSUMPTIONS = []
